@@ -4,6 +4,7 @@ import WrapModel.Model.Parse
 import WrapModel.Model.Dump
 import WrapModel.Model.IDump
 import WrapModel.Model.Pybind
+import WrapModel.Model.Matlab.Cpp
 
 namespace WrapModel.Driver
 open WrapModel
@@ -41,6 +42,18 @@ def handlePybind (args : List String) : String :=
       | .error e => errLine e
   | _ => "bad\targs"
 
+def handleMatlab (args : List String) : String :=
+  match args with
+  | [text, moduleName, ignore, boost] =>
+    let cfg : Matlab.MCfg := { moduleName := moduleName, ignore := decodeList ignore, useBoost := boost == "1" }
+    match parseInst text with
+    | .error e => errLine e
+    | .ok im =>
+      match Matlab.wrapModule cfg im with
+      | .ok files => okLine ("\x1e".intercalate (files.map fun (p, t) => p ++ "\x1f" ++ t))
+      | .error e => errLine e
+  | _ => "bad\targs"
+
 def handle (fields : List String) : String :=
   match fields with
   | ["parse", h] =>
@@ -63,6 +76,10 @@ def handle (fields : List String) : String :=
   | "pybind" :: rest =>
     match decodeAll rest with
     | some args => handlePybind args
+    | none => "bad\thex"
+  | "matlab" :: rest =>
+    match decodeAll rest with
+    | some args => handleMatlab args
     | none => "bad\thex"
   | _ => "bad\top"
 
